@@ -41,7 +41,7 @@ func runC02(c *an.Ctx) {
 	c.Floor("C02-R4", 1)
 	c.Floor("C02-R5", 1)
 	c.Floor("C02-R6", 5)
-	c.Floor("C02-R7", 2)
+	c.Floor("C02-R7", 10)
 	const cp = "filter/internal/composite."
 
 	// ---- R1
@@ -419,6 +419,9 @@ func runC02(c *an.Ctx) {
 	// ---- R8: one result cache per rule-list engine (a shared cache serves one list's verdict for another)
 	c.Floor("C02-R8", 3)
 	cachePerEngine(c, "C02-R8")
+
+	// the recycled request information is fully reset, so the default constructor is restored for requests without a profile
+	sharedPoolInit(c, "C02-R7", "dnssvc/internal/ratelimitmw.(*Middleware).newRequestInfo")
 
 	// ---- R7 constructor provenance in newRequestInfo
 	if fn := c.Fn("dnssvc/internal/ratelimitmw.(*Middleware).newRequestInfo"); fn == nil {
